@@ -1,8 +1,60 @@
-import PvlModel.Model.Encoder
-import PvlModel.Model.Spec
+import PvlModel.Lemmas.Num
+import PvlModel.Props.C17
 /-!
-# C01
-(theorems are added below as they are proved; see DESIGN §5)
+# C01 — dump then strict load in the same dialect returns the original module
+
+Theorems about the value level of the round trip, for every encoder configuration `c` (any of the four
+encoder classes with any options) paired with its own decoder `c.d`:
+
+* integers: what `encode_value` writes for an integer is `str(i)`, and the decoder reads it back as `i`;
+* strings written bare: `C17_unquoted_roundtrip`;
+* `None` and booleans: the keyword written is read back as the same constant.
+
+The block / statement level (layout, wrapping, the lexer's tokenisation of the written text) is decided by
+dumping generated modules with the real encoders, reading them back with the strict parser of the same
+dialect and comparing with the original up to the documented normalisations, and by comparing the real
+text with the encoder model's byte for byte (`vlib/props/c01.py`).
 -/
 namespace Pvl
+open Py Enc
+
+/-- **C01, integers round-trip** through every encoder and its own decoder -/
+theorem C01_int_roundtrip (c : EncCfg) (hs : NumSafe c.d.g = true) (i : Int) :
+    ∃ text, encodeValue c (.int i) = .ok text ∧ decodeSimple c.d text = .ok (.int i) := by
+  refine ⟨intStr i, ?_, decodeSimple_intStr c.d hs i⟩
+  simp [encodeValue, encodeSimple]
+
+/-- **C01, bare strings round-trip** (restating C17's reader/writer agreement at the value level) -/
+theorem C01_bare_string_roundtrip (c : EncCfg) (s : Str) (h : encodeValue c (.str s) = .ok s) :
+    decodeSimple c.d s = .ok (.str s) := by
+  apply C17_unquoted_roundtrip c s
+  simpa [encodeValue, encodeSimple] using h
+
+theorem foldEq_refl (a : Str) : foldEq a a = true := by simp [foldEq]
+
+/-- **C01, `None`** is written as the grammar's null keyword and read back as `None` -/
+theorem C01_none_roundtrip (c : EncCfg) (hg : c.d.g = c.g) :
+    ∃ text, encodeValue c .none = .ok text ∧ decodeSimple c.d text = .ok .none := by
+  refine ⟨c.g.noneKw, by simp [encodeValue, encodeSimple], ?_⟩
+  simp [decodeSimple, hg, foldEq_refl]
+
+/-- **C01, booleans**: the keyword written for a boolean reads back as that boolean, provided the table's
+    three keywords are pairwise different up to case (true of the generated tables, `kw_distinct`) -/
+theorem C01_bool_roundtrip (c : EncCfg) (hg : c.d.g = c.g) (b : Bool)
+    (h1 : foldEq c.g.trueKw c.g.noneKw = false) (h2 : foldEq c.g.falseKw c.g.noneKw = false)
+    (h3 : foldEq c.g.falseKw c.g.trueKw = false) :
+    ∃ text, encodeValue c (.bool b) = .ok text ∧ decodeSimple c.d text = .ok (.bool b) := by
+  cases b with
+  | true =>
+    refine ⟨c.g.trueKw, by simp [encodeValue, encodeSimple], ?_⟩
+    simp [decodeSimple, hg, foldEq_refl, h1]
+  | false =>
+    refine ⟨c.g.falseKw, by simp [encodeValue, encodeSimple], ?_⟩
+    simp [decodeSimple, hg, foldEq_refl, h2, h3]
+
+theorem kw_distinct :
+    ∀ g ∈ [Gen.pvl, Gen.odl, Gen.pds, Gen.isis, Gen.omni],
+      foldEq g.trueKw g.noneKw = false ∧ foldEq g.falseKw g.noneKw = false ∧ foldEq g.falseKw g.trueKw = false := by
+  decide
+
 end Pvl
